@@ -66,6 +66,19 @@ Heartbeat(e, stores) ==
        ELSE /\ (~Acceptable(e) \/ Cardinality(Peers(e.claimed)) >= Cap)
             /\ UNCHANGED hb
 
+\* Several verifier calls for one guardian at once (the receive loop and the node's own heartbeat goroutine both call
+\* SetHeartbeat): the table behaves as if the calls were made one after the other in some order.  ps: the peers of the
+\* (valid) heartbeats, stored: those of them the table holds afterwards.
+HeartbeatBurst(g, ps, stored) ==
+    /\ gs # Nil /\ g \in KeySetG(gs)
+    /\ fwd' = <<>> /\ UNCHANGED gs
+    /\ stored \subseteq ps
+    /\ ps \cap Peers(g) \subseteq stored
+    /\ LET new == Peers(g) \cup stored
+       IN /\ (new # Peers(g)) => Cardinality(new) <= Cap
+          /\ (ps \ stored # {}) => Cardinality(new) >= Cap          \* a new peer is refused only at the cap
+          /\ hb' = PutG(hb, g, new)
+
 ObsReq(e) ==
     /\ e.kind = "req"
     /\ UNCHANGED <<gs, hb>>
